@@ -31,7 +31,7 @@ use std::sync::{Arc, Condvar, Mutex};
 use std::sync::atomic::{AtomicU64, AtomicUsize, Ordering::SeqCst};
 
 #[derive(Clone, Copy, PartialEq, Debug)]
-enum St { NotStarted, AtYield, Running, Finished }
+enum St { NotStarted, AtYield, Running, Finished, Parked }
 
 struct Sched { turn: Option<usize>, st: Vec<St> }
 static SCHED: Mutex<Option<Sched>> = Mutex::new(None);
@@ -39,6 +39,43 @@ static CV: Condvar = Condvar::new();
 static CLOCK: AtomicU64 = AtomicU64::new(0);
 static ACTIVE: AtomicUsize = AtomicUsize::new(0);
 thread_local! { static ME: Cell<usize> = Cell::new(usize::MAX); static FIRST: Cell<u64> = Cell::new(u64::MAX); }
+/// executor model: WOKEN[task] is set by the task's waker; PARKED_TASK[thread] = task the thread is parked on (or usize::MAX)
+static WOKEN: [std::sync::atomic::AtomicBool; 4] = [std::sync::atomic::AtomicBool::new(false), std::sync::atomic::AtomicBool::new(false), std::sync::atomic::AtomicBool::new(false), std::sync::atomic::AtomicBool::new(false)];
+static PARKED_TASK: [AtomicUsize; 8] = [AtomicUsize::new(usize::MAX), AtomicUsize::new(usize::MAX), AtomicUsize::new(usize::MAX), AtomicUsize::new(usize::MAX), AtomicUsize::new(usize::MAX), AtomicUsize::new(usize::MAX), AtomicUsize::new(usize::MAX), AtomicUsize::new(usize::MAX)];
+
+/// the calling thread's task found nothing to do: it parks until its waker is invoked (under the controlled scheduler the thread
+/// is then not runnable; free-running, it spins politely with a deadline)
+fn park(task: usize) -> bool {
+    let me = ME.with(|m| m.get());
+    if me == usize::MAX || ACTIVE.load(SeqCst) == 0 {
+        let t0 = std::time::Instant::now();
+        loop {
+            if WOKEN[task].swap(false, SeqCst) { return true; }
+            if t0.elapsed() > std::time::Duration::from_millis(30) { return false; }
+            std::thread::yield_now();
+        }
+    }
+    let mut g = SCHED.lock().unwrap();
+    PARKED_TASK[me].store(task, SeqCst);
+    g.as_mut().unwrap().st[me] = St::Parked;
+    CV.notify_all();
+    while g.as_ref().unwrap().turn != Some(me) { g = CV.wait(g).unwrap(); }
+    let s = g.as_mut().unwrap();
+    s.turn = None; s.st[me] = St::Running;
+    PARKED_TASK[me].store(usize::MAX, SeqCst);
+    drop(g);
+    WOKEN[task].store(false, SeqCst);
+    true
+}
+
+fn task_waker(task: usize) -> std::task::Waker {
+    use std::task::{RawWaker, RawWakerVTable, Waker};
+    fn clone(d: *const ()) -> RawWaker { RawWaker::new(d, &VT) }
+    fn wake(d: *const ()) { WOKEN[d as usize - 1].store(true, SeqCst); }
+    fn noop(_: *const ()) {}
+    static VT: RawWakerVTable = RawWakerVTable::new(clone, wake, wake, noop);
+    unsafe { Waker::from_raw(RawWaker::new((task + 1) as *const (), &VT)) }
+}
 
 fn yield_cb() {
     let me = ME.with(|m| m.get());
@@ -58,7 +95,12 @@ fn grant(t: usize) -> bool {
     let mut g = SCHED.lock().unwrap();
     loop {
         let s = g.as_ref().unwrap();
-        match s.st[t] { St::Finished => return false, St::AtYield => break, _ => { g = CV.wait(g).unwrap(); } }
+        match s.st[t] {
+            St::Finished => return false,
+            St::AtYield => break,
+            St::Parked => { let task = PARKED_TASK[t].load(SeqCst); if task != usize::MAX && WOKEN[task].load(SeqCst) { break; } else { return false; } }
+            _ => { g = CV.wait(g).unwrap(); }
+        }
     }
     CLOCK.fetch_add(1, SeqCst);
     g.as_mut().unwrap().turn = Some(t);
@@ -220,7 +262,87 @@ impl Obj for MetricObj {
     }
 }
 
+
+/// a Uni channel with `NS` streams, each driven by the executor model (poll_next; park when Pending; re-poll when woken; stop at end-of-stream)
+macro_rules! stream_obj {
+    ($name:ident, $chan:ident) => {
+        struct $name<const N: usize, const MS: usize> {
+            chan: Arc<reactive_mutiny::prelude::advanced::$chan<u32, N, MS>>,
+            streams: Vec<Mutex<Option<std::pin::Pin<Box<dyn futures::Stream<Item = u32> + Send>>>>>,
+            ended: Vec<std::sync::atomic::AtomicBool>,
+        }
+        impl<const N: usize, const MS: usize> $name<N, MS> {
+            fn new(ns: usize, parked: bool) -> Self {
+                use reactive_mutiny::prelude::*;
+                let chan: Arc<reactive_mutiny::prelude::advanced::$chan<u32, N, MS>> = ChannelCommon::new("c");
+                let mut streams = vec![]; let mut ended = vec![];
+                for i in 0..ns {
+                    let (st, id) = chan.create_stream(); assert_eq!(id as usize, i);
+                    let mut st: std::pin::Pin<Box<dyn futures::Stream<Item = u32> + Send>> = Box::pin(st);
+                    if parked {      // the stream has parked once: its waker is registered
+                        let w = task_waker(i); let mut cx = std::task::Context::from_waker(&w);
+                        assert!(st.as_mut().poll_next(&mut cx).is_pending());
+                    }
+                    streams.push(Mutex::new(Some(st))); ended.push(std::sync::atomic::AtomicBool::new(false));
+                }
+                for w in WOKEN.iter() { w.store(false, SeqCst); }
+                Self { chan, streams, ended }
+            }
+        }
+        impl<const N: usize, const MS: usize> Obj for $name<N, MS> {
+            fn op(&self, name: &str, arg: u64, _prev: &[u64]) -> (u64, String) {
+                use reactive_mutiny::prelude::*;
+                match name {
+                    "send" => { let ok = self.chan.send(arg as u32).is_ok(); (ok as u64, format!("ok {}", ok)) }
+                    "cancel_all" => { self.chan.cancel_all_streams(); (0, "done".into()) }
+                    "cancel" => { self.chan.verif_streams_manager().cancel_stream(arg as u32); (0, "done".into()) }
+                    "drive" => {
+                        let i = arg as usize;
+                        let mut st = self.streams[i].lock().unwrap().take().unwrap();
+                        let w = task_waker(i); let mut cx = std::task::Context::from_waker(&w);
+                        let mut got: Vec<u32> = vec![];
+                        loop {
+                            match st.as_mut().poll_next(&mut cx) {
+                                std::task::Poll::Ready(Some(v)) => got.push(v),
+                                std::task::Poll::Ready(None) => { self.ended[i].store(true, SeqCst); break; }
+                                std::task::Poll::Pending => { if !park(i) { break; } }
+                            }
+                        }
+                        std::mem::forget(st);
+                        (got.len() as u64, format!("got {}", got.iter().map(|v| v.to_string()).collect::<Vec<_>>().join(",")))
+                    }
+                    "pending" => { let l = self.chan.pending_items_count(); (l as u64, format!("len {}", l)) }
+                    "ended" => { let e = self.ended[arg as usize].load(SeqCst); (e as u64, format!("ended {}", e)) }
+                    _ => panic!("unknown op {}", name),
+                }
+            }
+        }
+    };
+}
+stream_obj!(StreamUniAtomic, ChannelUniMoveAtomic);
+stream_obj!(StreamUniFullSync, ChannelUniMoveFullSync);
+
+fn make_stream(kind: &str, n: usize) -> Option<Arc<dyn Obj>> {
+    // kind = Stream<Chan>{Parked|Fresh}[:MS:NS]
+    let mut parts = kind.split(':');
+    let head = parts.next().unwrap();
+    let ms: usize = parts.next().map(|x| x.parse().unwrap()).unwrap_or(1);
+    let ns: usize = parts.next().map(|x| x.parse().unwrap()).unwrap_or(1);
+    let parked = head.ends_with("Parked");
+    let chan = head.trim_end_matches("Parked").trim_end_matches("Fresh");
+    macro_rules! inst { ($t:ident) => { match (n, ms) {
+        (2, 1) => Arc::new($t::<2, 1>::new(ns, parked)) as Arc<dyn Obj>, (2, 2) => Arc::new($t::<2, 2>::new(ns, parked)),
+        (4, 1) => Arc::new($t::<4, 1>::new(ns, parked)), (4, 2) => Arc::new($t::<4, 2>::new(ns, parked)),
+        _ => panic!("unsupported (N, MAX_STREAMS) = ({}, {})", n, ms) } } }
+    match chan {
+        "StreamUniAtomic" => Some(inst!(StreamUniAtomic)),
+        "StreamUniFullSync" => Some(inst!(StreamUniFullSync)),
+        _ => None,
+    }
+}
+
 fn make(kind: &str, n: usize) -> Arc<dyn Obj> {
+    if kind.starts_with("Stream") { return make_stream(kind, n).unwrap_or_else(|| panic!("unknown object kind {}", kind)); }
     macro_rules! pick { ($t:ident, $e:expr) => { match n { 2 => Arc::new($t::<2>($e)) as Arc<dyn Obj>, 4 => Arc::new($t::<4>($e)), 8 => Arc::new($t::<8>($e)), _ => panic!("N") } } }
     match kind {
         "AtomicMove" => pick!(AtomicRing, MoveContainer::new()),
@@ -304,6 +426,15 @@ fn main() {
             }
             println!("round {}", round);
             for l in out.lock().unwrap().iter() { println!("{}", l); }
+            if kind.starts_with("Stream") {
+                // tasks that stopped polling because nothing woke them (park deadline) and whose waker was not invoked afterwards either
+                let ns: usize = kind.split(':').nth(2).map(|x| x.parse().unwrap()).unwrap_or(1);
+                let parked: Vec<usize> = (0..ns).filter(|i| obj.op("ended", *i as u64, &[]).0 == 0 && !WOKEN[*i].load(SeqCst)).collect();
+                let pending = obj.op("pending", 0, &[]).0;
+                let c = CLOCK.load(SeqCst);
+                let tasks = parked.iter().map(|t| t.to_string()).collect::<Vec<_>>().join(",");
+                println!("ev {} 0 quiescent 0 {} {} {} {} {}", threads.len(), c, c, if parked.is_empty() { "allreturned" } else { "parked" }, pending, if tasks.is_empty() { "-".to_string() } else { tasks });
+            }
         }
         return;
     }
@@ -348,7 +479,8 @@ fn main() {
     }
     // wait until every thread sits at its first yield point (or finished without reaching one)
     { let mut g = SCHED.lock().unwrap(); loop { if g.as_ref().unwrap().st.iter().all(|s| *s == St::AtYield || *s == St::Finished) { break; } g = CV.wait(g).unwrap(); } }
-    let ordinary_done = |nt: usize| -> bool { let g = SCHED.lock().unwrap(); (0..nt).all(|t| t == after_idx || g.as_ref().unwrap().st[t] == St::Finished) };
+    let quiet = |g: &Sched, t: usize| -> bool { g.st[t] == St::Finished || (g.st[t] == St::Parked && { let k = PARKED_TASK[t].load(SeqCst); k == usize::MAX || !WOKEN[k].load(SeqCst) }) };
+    let ordinary_done = |nt: usize| -> bool { let g = SCHED.lock().unwrap(); (0..nt).all(|t| t == after_idx || quiet(g.as_ref().unwrap(), t)) };
     for (t, cnt) in segments { if t >= nt || t == after_idx { continue; } for _ in 0..cnt { if !grant(t) { break; } } }
     let cap = 20000usize; let mut stuck = vec![];
     // run the unfinished ordinary threads to completion, round-robin in bursts so that a thread spinning on another one cannot starve it
@@ -356,7 +488,17 @@ fn main() {
     while !ordinary_done(nt) && budget > 0 {
         for t in 0..nt { if t == after_idx { continue; } for _ in 0..50 { if budget == 0 || !grant(t) { break; } budget -= 1; } }
     }
-    if !ordinary_done(nt) { let g = SCHED.lock().unwrap(); for t in 0..nt { if t != after_idx && g.as_ref().unwrap().st[t] != St::Finished { stuck.push(t); } } }
+    if !ordinary_done(nt) { let g = SCHED.lock().unwrap(); for t in 0..nt { if t != after_idx && !quiet(g.as_ref().unwrap(), t) { stuck.push(t); } } }
+    if kind.starts_with("Stream") && stuck.is_empty() {
+        // quiescent state: every thread returned or sits parked without a pending wake-up
+        let parked: Vec<usize> = { let g = SCHED.lock().unwrap(); (0..nt).filter(|t| g.as_ref().unwrap().st[*t] == St::Parked).map(|t| PARKED_TASK[t].load(SeqCst)).collect() };
+        let pending = obj.op("pending", 0, &[]).0;
+        let c = CLOCK.load(SeqCst);
+        let tasks = parked.iter().map(|t| t.to_string()).collect::<Vec<_>>().join(",");
+        println!("ev {} 0 quiescent 0 {} {} {} {} {}", nt, c, c, if parked.is_empty() { "allreturned" } else { "parked" }, pending, if tasks.is_empty() { "-".to_string() } else { tasks });
+        for l in out.lock().unwrap().iter() { println!("{}", l); }
+        std::process::exit(0);      // parked threads never return: leave without joining
+    }
     if stuck.is_empty() && after_idx != usize::MAX { let mut b = cap; while b > 0 && grant(after_idx) { b -= 1; } if b == 0 { stuck.push(after_idx); } }
     for l in out.lock().unwrap().iter() { println!("{}", l); }
     for t in &stuck { println!("stuck {}", t); }
